@@ -122,9 +122,10 @@ def run(ctx):
                 if os.path.exists(sf[:-4] + ext):
                     os.remove(sf[:-4] + ext)
             try:
-                r = ss.run_session(pcfg, sf, new_cfg(), False, sched, events)
+                past = rng.choice([None, 0, 3700, 90000, 200000, 90000000])
+                r = ss.run_session(pcfg, sf, new_cfg(), False, sched, events, past_time=past)
             except Exception as e:
-                viol.append({'property': 'C12', 'kind': 'session-raised', 'error': repr(e)[:200], 'witness': {'spec': spec, 'schedule': sched, 'events': events}})
+                viol.append({'property': 'C12', 'kind': 'session-raised', 'error': repr(e)[:200], 'witness': {'spec': spec, 'schedule': sched, 'events': events, 'past_time': past}})
                 continue
             cases += 1
             dist['stdin'][kind] = dist['stdin'].get(kind, 0) + 1
@@ -132,8 +133,10 @@ def run(ctx):
             has_q = any(e[0] == 'line' and e[1] == 'q' for e in events)
             dist['q_lines'] += int(has_q)
             dist['status_failures'] += sum(1 for e in events if e[0] == 'line' and e[2])
-            wit = {'spec': spec, 'schedule': sched, 'events': events}
+            wit = {'spec': spec, 'schedule': sched, 'events': events, 'past_time': past}
             # oracle on the implementation
+            if r['stdout_extra']:
+                viol.append({'property': 'C12', 'kind': 'stdout-written-outside-guess-stream', 'text': r['stdout_extra'][:80], 'witness': wit})
             if r['out'] != full[:len(r['out'])]:
                 viol.append({'property': 'C12', 'kind': 'stream-altered', 'out': r['out'][:6], 'witness': wit})
             if not has_q and (r['state'] != 'finished' or r['out'] != full):
@@ -226,7 +229,9 @@ def replay(ctx, payload):
     full = [l for u in units for l in u[2]]
     sf = os.path.join(common.scratch_dir('sess'), 'replay12.sav')
     ev = [tuple(e) for e in w['events']]
-    r = ss.run_session(pcfg, sf, new_cfg(), False, w['schedule'], ev)
+    r = ss.run_session(pcfg, sf, new_cfg(), False, w['schedule'], ev, past_time=w.get('past_time'))
+    if r['stdout_extra']:
+        out.append({'kind': 'stdout-written-outside-guess-stream', 'text': r['stdout_extra'][:80]})
     has_q = any(e[0] == 'line' and e[1] == 'q' for e in ev)
     if r['out'] != full[:len(r['out'])] or (not has_q and r['out'] != full):
         out.append({'kind': 'stream', 'lines': len(r['out']), 'total': len(full)})
